@@ -392,6 +392,9 @@ impl Shape {
         for v in vs.iter().skip(1) {
             l.push(format!("h = h.wrapping_mul(3).wrapping_add({v});"));
         }
+        // items declared inside the function that contains the invocation (a const, a fn, a struct): a nested fn sees them
+        l.push("h = local_mix(h) ^ LOCAL_K;".to_string());
+        l.push("h = LocalW(h).0;".to_string());
         for c in &caps {
             let read = if c.is_trace { format!("{}.len() as u64", c.name) } else { c.ty.read(&c.name, c.kind == Cap::M) };
             l.push(format!("h = h.wrapping_mul({}).wrapping_add({});", c.prime, read));
@@ -618,6 +621,9 @@ impl Shape {
         let w = &mut s;
         writeln!(w, "// BEGIN SHAPE {} {}", id, self.describe()).unwrap();
         writeln!(w, "pub fn {fn_name}(inp: [u64; 4], k0: u64) -> Result<u64, String> {{").unwrap();
+        writeln!(w, "    const LOCAL_K: u64 = 0x9E37;").unwrap();
+        writeln!(w, "    fn local_mix(x: u64) -> u64 {{ x.rotate_left(7) ^ (LOCAL_K << 3) }}").unwrap();
+        writeln!(w, "    struct LocalW(u64);").unwrap();
         if self.variant == Variant::Deep {
             writeln!(w, "    // the input whose first argument is 12 becomes the deep one").unwrap();
             writeln!(w, "    let inp = [if inp[0] == 12 {{ {} + k0 % 7 }} else {{ inp[0] }}, inp[1], inp[2], inp[3]];", DEEP_DEPTH).unwrap();
@@ -800,6 +806,9 @@ impl Shape {
         let w = &mut s;
         writeln!(w, "// BEGIN SHAPE {} {}", id, self.describe()).unwrap();
         writeln!(w, "pub fn {fn_name}(inp: [u64; 4], k0: u64) -> Result<u64, String> {{").unwrap();
+        writeln!(w, "    const LOCAL_K: u64 = 0x9E37;").unwrap();
+        writeln!(w, "    fn local_mix(x: u64) -> u64 {{ x.rotate_left(7) ^ (LOCAL_K << 3) }}").unwrap();
+        writeln!(w, "    struct LocalW(u64);").unwrap();
         writeln!(w, "    // ---- macro version").unwrap();
         for c in &caps {
             let init = if c.is_trace { "Vec::new()".to_string() } else { c.ty.init(c.idx, c.kind == Cap::M) };
